@@ -33,11 +33,19 @@ impl C02 {
         // every 7th case goes through the file API instead (GdsLibrary::save), onto a path that already holds a longer older file:
         // the bytes on disk are then what is judged
         let via_file = cx.n % 7 == 3;
+        let (short_sink, self_n) = (!via_file && cx.n % 8 == 5, cx.n);
+        if short_sink {
+            cx.count("written_to_short_sink");
+        }
         let path = cx.tmp("c02.gds");
         let written = guard(|| {
             if via_file {
                 let _ = std::fs::write(&path, vec![0x5Au8; 200_000]);
                 lib.save(&path).map(|_| std::fs::read(&path).unwrap_or_default())
+            } else if short_sink {
+                // a destination that takes only a few bytes per call: the bytes it received are judged
+                let mut sw = ShortWriter { inner: Vec::new(), max: 1 + (self_n % 11) as usize };
+                lib.write(&mut sw).map(|_| sw.inner)
             } else {
                 let mut buf = Vec::new();
                 lib.write(&mut buf).map(|_| buf)
